@@ -38,6 +38,7 @@ def is_repo(g):
 
 def run(ctx):
     F = ctx.facts
+    r22_7(ctx)
     ctx.rule('R22.1', 'element names written == element names dispatched by the reader, per summary kind')
     ctx.rule('R22.2', 'per element, attribute names read == attribute names written')
     ctx.rule('R22.3', 'every data member of a serialized summary struct is read by the writer and assigned by the reader')
@@ -288,3 +289,58 @@ def run(ctx):
                ('summary key %s written in %s is dispatched by the build-dir driver' % (k, f['name'])) if ok else
                ('summary key %s is written by %s but no reader dispatches on it (known keys: %s)' % (k, f['name'], sorted(disp))),
                '%s:%d' % (f['file'], x['l']))
+
+
+INT_WIDTH = {'char': 8, 'signed char': 8, 'unsigned char': 8, 'bool': 1, 'short': 16, 'unsigned short': 16, 'int': 32, 'unsigned int': 32, 'unsigned': 32,
+             'nonneg int': 32, 'long': 64, 'unsigned long': 64, 'long long': 64, 'unsigned long long': 64, 'std::size_t': 64, 'size_t': 64,
+             'int64_t': 64, 'uint64_t': 64, 'std::int64_t': 64, 'std::uint64_t': 64, 'MathLib::bigint': 64, 'MathLib::biguint': 64,
+             'int32_t': 32, 'uint32_t': 32, 'std::int32_t': 32, 'std::uint32_t': 32, 'std::uint8_t': 8, 'uint8_t': 8}
+UNSIGNED = {'unsigned char', 'unsigned short', 'unsigned int', 'unsigned', 'unsigned long', 'unsigned long long', 'std::size_t', 'size_t', 'uint64_t', 'std::uint64_t',
+            'MathLib::biguint', 'uint32_t', 'std::uint32_t', 'std::uint8_t', 'uint8_t', 'bool'}
+# members whose declared type is signed but whose values are never negative (reading them through an unsigned conversion loses nothing)
+NONNEG_FIELDS = ('lineNumber', 'column', 'callArgNr', 'myArgNr', 'argnr', 'line', 'lineNr')
+
+
+def r22_7(ctx):
+    """R22.7  numeric round trip: in every summary reader (load*FromXml), a member restored from an attribute through a conversion that returns an
+    integral type T_c can represent every value the member's type T_f holds: T_c is not narrower than T_f, and T_c is not unsigned when T_f is
+    signed (unless the member is one of the never-negative position/argument-number members)."""
+    F = ctx.facts
+    ctx.rule('R22.7', 'numeric members are restored through a conversion that covers the member\'s type')
+    n = 0
+    for f in F.all_fns():
+        if not (f['file'] == 'lib/ctu.cpp' or f['file'].startswith('lib/check')) or not any(t in f['name'] for t in ('loadFromXml', 'loadBaseFromXml', 'loadUnsafeUsageListFromXml', 'loadFileInfoFromXml', 'loadFunctionsFromXml')):
+            continue
+        b = F.body(f)
+        if b is None:
+            continue
+        for x in walk(b['body']):
+            if x.get('k') != 'BinaryOperator' or x.get('op') != '=':
+                continue
+            lhs = strip(x['c'][0])
+            if lhs is None or lhs.get('k') != 'MemberExpr' or lhs.get('dk') != 'Field':
+                continue
+            tf = (lhs.get('t') or '').replace('const ', '').strip()
+            if tf not in INT_WIDTH:
+                continue
+            # the conversion: innermost call on the right-hand side whose type is integral
+            conv = None
+            for y in walk(x['c'][1]):
+                if y.get('k') in ('CallExpr', 'CXXMemberCallExpr') and (y.get('t') or '').replace('const ', '').strip() in INT_WIDTH and y.get('fn'):
+                    conv = y
+                    break
+            if conv is None or any(y.get('k') in ('CStyleCastExpr', 'CXXStaticCastExpr') for y in walk(x['c'][1])):
+                continue
+            tc = conv['t'].replace('const ', '').strip()
+            n += 1
+            fld = lhs['n'].split('::')[-1]
+            narrower = INT_WIDTH[tc] < INT_WIDTH[tf]
+            sign_loss = tc in UNSIGNED and tf not in UNSIGNED and fld not in NONNEG_FIELDS
+            ok = not narrower and not sign_loss
+            ctx.ob('R22.7', 'numeric:%s:%s' % (f['name'], lhs['n']), ok,
+                   ('%s restores %s (%s) through %s returning %s' % (f['name'], lhs['n'], tf, conv['fn'], tc)) if ok else
+                   ('%s restores %s (%s) through %s, which returns %s: %s - a summary that went through a file gives a different whole-program finding than '
+                    'the same summary kept in memory' % (f['name'], lhs['n'], tf, conv['fn'], tc,
+                                                         'negative values come back as huge positive ones' if sign_loss else 'large values are truncated')),
+                   '%s:%s' % (f['file'], x['l']))
+    ctx.floor('R22.7 numeric members restored by summary readers', n, 8)
